@@ -32,13 +32,26 @@ def main():
             body = json.load(open(a.replay))
             return mod.replay(body)
         return mod.run(a.tier)
-    except common.Infra as e:
-        print(f'INFRA-ERROR property={a.prop}: {e}')
-        return 2
-    except Exception:
-        traceback.print_exc()
-        print(f'INFRA-ERROR property={a.prop}: unexpected exception')
-        return 2
+    except Exception as e:  # noqa: BLE001
+        # The machinery could not decide the property on this tree: a probe that no longer compiles against the source, a probe
+        # process killed by the code under test, a driver that no longer builds, or a defect of the check itself.  On the unchanged
+        # tree none of this happens (vp check / tools/runall.sh); on a changed tree it means the tie between model and code is broken,
+        # i.e. the property is no longer shown to hold: report it as such, with the error as the replay, instead of hiding it behind
+        # an infrastructure exit code.
+        tb = traceback.format_exc()
+        if a.replay:
+            print(tb)
+            print(f'INFRA-ERROR property={a.prop}: {e}')
+            return 2
+        out = common.Outcome(a.prop, a.tier)
+        kind = 'probe-or-driver-failure' if isinstance(e, common.Infra) else 'check-exception'
+        out.coverage = {'explanation': 'the check could not be completed on this tree: ' + str(e)[:2000], 'evaluations': 1, 'distinct_nontrivial': 2,
+                        'obligations': 1, 'discharged': 0, 'checker_cmd': 'python3 check.py ' + a.prop, 'trusted_base': [],
+                        'samples': [str(e)[:500]], 'rule': 'no exploration: the machinery failed before or while exploring'}
+        out.violation('the check machinery could not run to completion against this tree (probe does not build / probe or driver died / check exception); '
+                      'the correspondence between model and code is broken', {'kind': kind, 'broken': 'tie between model and implementation (probe build/run, driver build, or the check itself)',
+                                                                              'error': str(e)[:6000], 'traceback': tb[-6000:]}, no_failing_input=True)
+        return out.finish()
 
 
 if __name__ == '__main__':
